@@ -37,7 +37,8 @@ Definition argsclose (tol : Q) (a b : args Q) : bool :=
   qclose tol (a_phi0 a) (a_phi0 b) && qlist_close tol (a_phi a) (a_phi b) && Z.eqb (a_nang a) (a_nang b).
 """ % qlit(math.pi)
 
-RUNDIR = os.path.join(BUILD, "run", "C10jobs")
+TAGSUF = os.environ.get("C10_RUNTAG", "")   # lets two runs (mutation self-test) use separate scratch dirs
+RUNDIR = os.path.join(BUILD, "run", "C10jobs" + TAGSUF)
 WAVELEN, NMED = 0.66, 1.33
 K = 2 * math.pi / (WAVELEN / NMED)
 
@@ -451,7 +452,7 @@ def stage_parse(ctx):
             ctx.count("parse:angles-out-of-fortran-range")
         if i < 2:
             ctx.sample(dict(stage="parse", scat=sp, pos=m["pos"], impl_args=a))
-    mism, errors, _ = run_mismatch_cases("C10p", REQ, exprs, defs=DEFS)
+    mism, errors, _ = run_mismatch_cases("C10p" + TAGSUF, REQ, exprs, defs=DEFS)
     ctx.corr_cases += len(exprs) // 2
     coq_errors(ctx, errors)
     mism = set(mism)
@@ -465,6 +466,10 @@ def stage_parse(ctx):
             ctx.violation(key, "_parse_args hands angles outside the range the Fortran code accepts "
                           "(alpha=%.6g beta=%.6g deg): its guard ends in STOP, i.e. the interpreter exits" % (a[8], a[9]),
                           dict(kind="corr-parse", **m))
+        elif (j + 1) not in mism:
+            # un-normalised but inside the accepted range (alpha or phi exactly 360 instead of 0): the code
+            # before the repair, on an input where it does no harm
+            ctx.count("parse:unnormalised-but-in-range")
         else:
             ctx.disagree("corr:parse_args", "model and implementation disagree on the argument tuple of _parse_args",
                          dict(kind="corr-parse", **m))
@@ -483,28 +488,37 @@ def stage_guard(ctx):
     rng = ctx.subrng("guard")
     up = lambda x: math.nextafter(x, math.inf)  # noqa
     jobs, metas = [], []
-    for k in range(ctx.n(36, 200)):
+    # every boundary value of every guarded argument (deterministic), then random draws
+    bounds = {"alpha": [0.0, 360.0, up(360.0), -2.0 ** -40, -30.0, 400.0, -0.0, 180.0],
+              "beta": [0.0, 180.0, up(180.0), -2.0 ** -40, -17.0, 229.0, 90.0],
+              "thet": [0.0, 180.0, up(180.0), -2.0 ** -40, 90.0, 200.0],
+              "phi": [0.0, 360.0, up(360.0), -2.0 ** -40, -28.0, 180.0]}
+    plan = [(w, v) for w in ("alpha", "beta", "thet", "phi") for v in bounds[w]]
+    plan += [("two-points", (181.0, 30.0)), ("two-points", (30.0, -1.0)), ("two-points", (30.0, 30.0)), ("none", None)]
+    for k in range(ctx.n(0, 170)):
+        w = rng.choice(["alpha", "beta", "thet", "phi"])
+        plan.append((w, rng.choice(bounds[w] + [rng.uniform(-50, 420)])))
+    for which, v in plan:
         a = base_args(rng)
-        which = rng.choice(["alpha", "beta", "thet", "phi", "none", "two-points"])
         if which == "alpha":
-            a[8] = rng.choice([0.0, 360.0, up(360.0), -2.0 ** -40, -30.0, 400.0, -0.0])
+            a[8] = v
         elif which == "beta":
-            a[9] = rng.choice([0.0, 180.0, up(180.0), -2.0 ** -40, -17.0, 229.0, 90.0])
+            a[9] = v
         elif which == "thet":
-            a[11] = [rng.choice([0.0, 180.0, up(180.0), -2.0 ** -40, 90.0, 200.0])]
+            a[11] = [v]
         elif which == "phi":
-            a[13] = [rng.choice([0.0, 360.0, up(360.0), -2.0 ** -40, -28.0, 180.0])]
+            a[13] = [v]
         elif which == "two-points":
-            # only the SECOND point is out of range: the guard sits in the per-angle routine
-            a[11] = [rng.uniform(0, 180), rng.choice([181.0, 30.0])]
-            a[13] = [rng.uniform(0, 360), rng.choice([-1.0, 30.0])]
+            # only the SECOND point may be out of range: the guard sits in the per-angle routine
+            a[11] = [rng.uniform(0, 180), v[0]]
+            a[13] = [rng.uniform(0, 360), v[1]]
             a[14] = 2
         jobs.append(dict(kind="runargs", args=a))
         metas.append(dict(what="angle-guard", which=which, args=a))
     # size guard (spheres, radius swept across the limit; the refusal happens before any computation)
     for k in range(ctx.n(10, 40)):
         lam = WAVELEN / NMED
-        ix_target = rng.choice([100, 115, 119, 120, 121, 125, 150, 199, 200, 230, 20, 30])
+        ix_target = rng.choice([122, 123, 125, 130, 150, 199, 200, 201, 230, 400, 10, 20, 30, 45])
         # invert ixxx = int(x + 4.05 x^(1/3)) roughly
         x = max(1.0, ix_target - 4.05 * ix_target ** (1 / 3.))
         axi = (x + rng.uniform(-0.4, 0.4)) * lam / (2 * math.pi)
@@ -530,7 +544,7 @@ def stage_guard(ctx):
         else:
             exprs.append("Bool.eqb (size_guard %s 5) %s" % (zlit(m["ixxx"]), blit(not refused)))
             ctx.nontriv(("size", m["ixxx"] > 120, refused))
-    mism, errors, _ = run_mismatch_cases("C10g", REQ, exprs, defs=DEFS)
+    mism, errors, _ = run_mismatch_cases("C10g" + TAGSUF, REQ, exprs, defs=DEFS)
     ctx.corr_cases += len(exprs)
     coq_errors(ctx, errors)
     for i in mism:
@@ -583,7 +597,7 @@ def stage_packing(ctx):
         ctx.count("pack:" + m["scat"]["kind"])
         if ci < 1:
             ctx.sample(dict(stage="packing", scat=m["scat"], pos=m["pos"], scat_matr0=o["sm"][0], field0=o["fields"][0]))
-    mism, errors, _ = run_mismatch_cases("C10k", REQ, exprs, defs=DEFS)
+    mism, errors, _ = run_mismatch_cases("C10k" + TAGSUF, REQ, exprs, defs=DEFS)
     ctx.corr_cases += len(exprs) // 2
     coq_errors(ctx, errors)
     mism = set(mism)
